@@ -274,6 +274,9 @@ class BodyAn:
         if self.fn.is_closure and body.promoted_index is None and l == 1 and not self.defs[1]:
             return ("closure_env",)
         if self.is_param(l) and body.promoted_index is None:
+            al = getattr(self, "param_alias", None)
+            if al and l in al:
+                return al[l]
             if not self.defs[l] and not self.partial[l]:
                 return ("param", l, name)
             # parameter that is re-assigned or partially written: object designator
